@@ -288,7 +288,10 @@ fn trace_case(sub: &Sub, idx: u64) {
 
 fn run_case(sub: &Sub, idx: u64, describe: bool) -> Result<Outcome, String> {
     trace_case(sub, idx);
-    match catch_unwind(AssertUnwindSafe(|| (sub.run)(idx, describe))) {
+    crate::ops::set_clone_keys(idx % 2 == 1);
+    let r = catch_unwind(AssertUnwindSafe(|| (sub.run)(idx, describe)));
+    crate::ops::set_clone_keys(false);
+    match r {
         Ok(o) => Ok(o),
         Err(_) => Err(format!(
             "harness panic in sub {} case {}: {}",
